@@ -140,9 +140,140 @@ def run_fixtures():
     finally:
         shutil.rmtree(d, ignore_errors=True)
 
+    # rows and facts added after the seeding rounds
+    MOD2 = """
+        TABLE = {"a": 1, "b": 2}
+        PAIRS = {(1, 2): "x"}
+
+        class Wrap:
+            def __init__(self, v):
+                self.v = v
+
+        class P:
+            SHARED = []
+
+            def __init__(self, *parts):
+                self.parts = tuple(parts)
+
+            def walk(self, data):
+                if not self.parts:
+                    return data
+                out = [Wrap(data)]
+                for p in self.parts:
+                    out = [data]
+                return out[0]
+
+            def unpack_none(self, doc):
+                found = (doc, 1) if doc else None
+                pairs = [found]
+                for a, b in pairs:
+                    pass
+
+            def guarded_unpack(self, doc):
+                x = (doc, 1) if doc else None
+                ok = x not in [None, []]
+                x = [x]
+                if ok:
+                    for a, b in x:
+                        pass
+
+            def store_while_iterating(self, doc):
+                for i, v in enumerate(doc):
+                    doc[i] = v
+
+            def store_into_snapshot_keys(self, doc):
+                for k in list(doc.keys()):
+                    doc[k] = 1
+
+            def derived_key(self, doc):
+                t = (TABLE[doc["a"]], TABLE[doc["b"]])
+                return PAIRS[t]
+
+            def class_state(self, doc):
+                self.SHARED.append(doc)
+
+            def fmt(self, doc):
+                try:
+                    return doc["s"] % 3
+                except (TypeError, ZeroDivisionError, ValueError, KeyError):
+                    return None
+    """
+    d = _pkg({"__init__.py": "", "m2.py": MOD2})
+    try:
+        prog = Program(d)
+        me = mk("inst:m2.P", org=frozenset({("self", 0)}))
+        doc = json_node("doc", 0)
+
+        def run2(meth, **args):
+            it = Interp(prog, {}, {})
+            s = it.run(prog.func(f"m2.P.{meth}"), {"self": me, **args})
+            return it, s
+        me_parts = mk("inst:m2.P", org=frozenset({("self", 0)}), fields=(("parts", mk("tuple", elem=mk("int"))),))
+        it = Interp(prog, {}, {})
+        s = it.run(prog.func("m2.P.walk"), {"self": me_parts, "data": doc})
+        check("attribute truthiness fact: after `if not self.parts: return` the loop runs at least once (no Wrap in the result)", "inst:m2.Wrap" not in s.ret.types)
+        it, s = run2("unpack_none", doc=doc)
+        check("unpacking a possibly-None element may raise TypeError", any(k[0] == "TypeError" and "None" in v[0][-1][3] for k, v in s.raises.items()))
+        it, s = run2("guarded_unpack", doc=doc)
+        check("a remembered not-None test follows `x = [x]`", not any(k[0] == "TypeError" and "None" in v[0][-1][3] for k, v in s.raises.items()))
+        it, s = run2("store_while_iterating", doc=doc)
+        check("store under an enumerate index into a possibly-mapping being iterated may raise RuntimeError", any(k[0] == "RuntimeError" for k in s.raises))
+        it, s = run2("store_into_snapshot_keys", doc=doc)
+        check("store under its own keys taken from a snapshot does not", not any(k[0] == "RuntimeError" for k in s.raises))
+        it, s = run2("derived_key", doc=doc)
+        check("a table lookup keyed by values looked up with input keys may raise KeyError (tuple key)", any(k[0] == "KeyError" and "PAIRS" in k[2] for k in s.raises))
+        it, s = run2("class_state", doc=doc)
+        check("class-level mutable attribute has origin `global`", any(e.kind == "mut" and any(o[0] == "global" for o in e.detail["org"]) for e in it.events.values()))
+        it, s = run2("fmt", doc=doc)
+        check("`%` on an input node may raise OverflowError (printf formatting of an input string)", any(k[0] == "OverflowError" and v[1] for k, v in s.raises.items()))
+    finally:
+        shutil.rmtree(d, ignore_errors=True)
+
+    # flattening
+    from .flatten import flat
+    MOD3 = """
+        class C:
+            def entry(self, x):
+                y = self._prep(x, "a")
+                if not y:
+                    return None
+                return self._finish(y)
+
+            def _prep(self, v, name):
+                if v is None:
+                    return []
+                w = getattr(v, "is_" + name)
+                return [w]
+
+            def _finish(self, y):
+                for i in y:
+                    if i:
+                        return i
+                return None
+
+            def loop_helper(self, x):
+                z = self._first(x)
+                return z
+
+            def _first(self, x):
+                for i in x:
+                    return i
+    """
+    d = _pkg({"__init__.py": "", "m3.py": MOD3})
+    try:
+        prog = Program(d)
+        f1 = flat(prog, prog.func("m3.C.entry"))
+        txt = ast.unparse(f1.node)
+        check("flatten: assign-form helper with early return is inlined, constants substituted and folded", "_prep" not in txt and "v.is_a" in txt.replace("x.is_a", "v.is_a"))
+        check("flatten: return-form helper is pasted", "_finish" not in txt and "for i in y" in txt)
+        f2 = flat(prog, prog.func("m3.C.loop_helper"))
+        check("flatten: a helper returning from inside a loop stays a call in assign form", "_first" in ast.unparse(f2.node))
+    finally:
+        shutil.rmtree(d, ignore_errors=True)
+
     if failures:
         for f in failures:
             print("FIXTURE FAILED:", f)
         return 1
-    print("selfcheck: 18 engine fixtures ok")
+    print("selfcheck: 29 engine fixtures ok")
     return 0
